@@ -28,8 +28,14 @@ pub fn record_deadlock(msg: &str, rep: Option<&SchedReport>) {
             }
         }
         a.evaluations += 1;
-        if counts {
-            a.violation(prop, if rep.map_or(false, |r| !r.crashed.is_empty()) { "worker_crash_then_deadlock" } else { "deadlock" }, msg.to_string(), facts, case);
+        // a panic inside the library is a violation of every solver level property (each presupposes that the call returns)
+        let panics = crate::runner::take_panics();
+        let lib_panic = panics.iter().find(|p| p.in_library()).cloned();
+        let crashed = rep.map_or(false, |r| !r.crashed.is_empty()) || lib_panic.is_some();
+        if let Some(p) = &lib_panic { facts = facts.set("panic_file", J::s(p.file.clone())).set("panic_line", J::i(p.line)).set("panic_msg", J::s(p.msg.clone())); }
+        if counts || crashed {
+            let detail = match &lib_panic { Some(p) => format!("{msg}; a worker panicked inside the library: {} at {}:{}", p.msg, p.file, p.line), None => msg.to_string() };
+            a.violation(prop, if crashed { "worker_crash_then_deadlock" } else { "deadlock" }, detail, facts, case);
         } else {
             a.bump("deadlocks_seen_other_property", 1);
             a.inconclusive(&format!("deadlock (decided by C04): {msg}"), case);
